@@ -57,12 +57,24 @@ func genHistory(r *hxlib.Run, emit func(hxlib.Case), backend string, shadow bool
 	// by the evict handler (it does not): a pending relative expiry would make the stored Expires depend on
 	// the ARC policy
 	noRel := cache == "e"
+	// gcache keeps the TTL of an entry that is overwritten by a plain Set: after a record with an expiry in the
+	// past (TTL 0) the entry of that key is dropped at the next lookup, the evict handler writes the pending
+	// record — and whether a pending relative expiry is re-based by a later flush depends on it. A history on a
+	// delayed-write interface therefore uses either relative expiries or expiries in the past, not both.
+	noPast := false
+	if cache == "d" {
+		if rng.Intn(2) == 0 {
+			noRel = true
+		} else {
+			noPast = true
+		}
+	}
 
 	rec := func() string {
 		form := dbx.GenForm(rng)
 		k := pick(r, keys)
 		lastForm[k] = form
-		return fmt.Sprintf("%s %s %s %s", k, form, dbx.GenMetaX(rng, rng.Intn(6) == 0, noRel, findingMode), dbx.GenFields(rng, form, ""))
+		return fmt.Sprintf("%s %s %s %s", k, form, dbx.GenMetaY(rng, rng.Intn(6) == 0, noRel, findingMode, noPast), dbx.GenFields(rng, form, ""))
 	}
 	sync := func() {
 		if delayed {
@@ -97,7 +109,11 @@ func genHistory(r *hxlib.Run, emit func(hxlib.Case), backend string, shadow bool
 			if findingMode {
 				continue
 			}
-			lines = append(lines, fmt.Sprintf("setabs p %s %s", pick(r, keys), pick(r, []string{"5", "@-5000", "@+3600", "@+86400", "0"})))
+			abs := pick(r, []string{"5", "@-5000", "@+3600", "@+86400", "0"})
+			if noPast && (abs == "5" || abs == "@-5000") {
+				abs = "@+3600"
+			}
+			lines = append(lines, fmt.Sprintf("setabs p %s %s", pick(r, keys), abs))
 			r.Count("op:setabs")
 		case x < 65:
 			if noRel || findingMode {
@@ -281,7 +297,7 @@ func generate(r *hxlib.Run, emit0 func(hxlib.Case)) {
 	regression(emit)
 	genIterator(r, emit)
 	genBigPurge(r, emit)
-	n := r.Budget(250, 4000)
+	n := r.Budget(250, 2000)
 	for i := 0; i < n; i++ {
 		for _, backend := range []string{"h", "b", "f", "g"} {
 			for _, shadow := range []bool{false, true} {
